@@ -106,6 +106,8 @@ mod mcache;
 mod metrics;
 mod peer_score;
 mod protocol;
+#[cfg(libp2p_verif)]
+pub use protocol::verif_hooks;
 mod queue;
 mod rpc_proto;
 mod subscription_filter;
